@@ -82,8 +82,9 @@ MkMod(k, c, s, d) ==
                                 [b \in DOMAIN d |-> IF d[b] = RZero THEN RZero ELSE RN(10 * (2 + s + b) + 3 * c, 10)], <<>>)
     [] k = "shapefactor" -> Mod(SfName[c], "shapefactor", <<>>, <<>>)
 
-NfInit(n)   == IF n = "mu" THEN RN(3, 2) ELSE RN(3, 4)
-NfBounds(n) == IF n = "mu" THEN <<R(-1), R(7)>> ELSE <<RN(1, 2), RN(5, 2)>>
+\* the second normfactor starts at exactly 0 with 0 as its lower bound: legitimate settings that are falsy in Python
+NfInit(n)   == IF n = "mu" THEN RN(3, 2) ELSE RZero
+NfBounds(n) == IF n = "mu" THEN <<R(-1), R(7)>> ELSE <<RZero, RN(5, 2)>>
 
 MkMeas(w, name, poi, L, sg, nfc, F) ==
   LET lumi == IF HasLumiMod(w)
